@@ -378,6 +378,10 @@ def s3(tier):
     fmt = dict(fm0, TA=TA)
     dd.append(([TA, window('N', ['TA'], fmt, 2, same, kind='window', start=None)], 'N'))
     dd.append(([TA, within('V', ['TA', 'B'], fmt, same)], 'V'))
+    # a width-2 window over a plain factor AND a complex-window factor (their variables are laid out differently), both orders
+    mix = lambda k: 0 if (k[1] == k[0]) == (k[3] == k[2]) else 1
+    dd.append(([TA, window('N', ['B', 'TA'], fmt, 2, mix, kind='window', start=None)], 'N'))
+    dd.append(([TA, window('N', ['TA', 'B'], fmt, 2, mix, kind='window', start=None)], 'N'))
     # two independent complex-window factors in one design (one of them is implied in most placements)
     TB = window('TB', ['B'], fm0, 2, same, kind='transition', start=1)
     NB = window('NB', ['B'], fm0, 2, repeat_last2, stride=2, start=None)
